@@ -104,6 +104,10 @@ def unify(t_a, t_b):
     if t_a == t_b:
         return t_a
 
+    # Type errors (and anything else that is not a type) unify with nothing.
+    if not hasattr(t_a, "__name__") or not hasattr(t_b, "__name__"):
+        return None
+
     if t_a.__name__ == "list" and t_b.__name__ == "list":
         if hasattr(t_a, "__args__") and len(t_a.__args__) == 1:
             if hasattr(t_b, "__args__"):
